@@ -82,6 +82,7 @@ type VC struct {
 	localRefs map[string][]localRef
 	rebinding bool
 	privateRefs map[string][]string // heap key -> refs of locals that never escape
+	localNames  map[string]bool     // names of the function's local variables (static scan, see hasLocalNamed)
 	ownNames  map[string]bool
 	inlStack  []*inlFrame
 	inlSeq    int
